@@ -230,3 +230,19 @@ def l3(ctx):
     obs.append(ctx.ob(threaded or direct, sb.qualname, sb.where, "import_one is reached from request handling",
                       "set_body(to_thread)=%s create_member(direct)=%s" % (threaded, direct), "import_one call sites vanished"))
     return obs
+
+
+@rule("C05", "L4", floor=4, kind="N",
+      desc="the uid maps a refusal is decided from are refreshed from the listing on every check (same obligations as "
+           "C06/U6): a cached 'nothing changed' shortcut lets two resources share a UID under concurrency")
+def l4(ctx):
+    from .c06 import u6
+    return u6(ctx)
+
+
+@rule("C05", "L5", floor=5, kind="N",
+      desc="the answer of a write is computed from the writer's own data, not re-read after the critical section (same "
+           "obligations as C02/E3)")
+def l5(ctx):
+    from .c02 import e3
+    return e3(ctx)
